@@ -156,3 +156,16 @@ def strip_generics(name):
 
 def is_fn(name, plain):
     return strip_generics(name) == plain
+
+
+def derives(engine, x, src, depth=6):
+    """x is src, contains src, or is the result of a recorded call one of whose arguments derives
+    from src (value flow through opaque conversions such as into_boxed_slice)"""
+    if depth < 0: return False
+    if any(y == src for y in walk(x)): return True
+    for ev in engine.events.values():
+        if ev.ret is not None and any(y == ev.ret for y in walk(x)):
+            if any(derives(engine, a, src, depth - 1) for a in ev.args): return True
+    if x[0] == 'phi':
+        return any(derives(engine, o, src, depth - 1) for o in engine.phi_ops.get(x, ()))
+    return False
